@@ -539,6 +539,8 @@ def check(run, db, tier):
     from . import seqtables
     for fn_ in (seqtables.zernike_rules, seqtables.qbfs_seq_rules, seqtables.qcon_seq_rules, seqtables.q2d_seq_rules):
         run.group(fn_, Proxy(run, {'C08.table2': 'C07.seq', 'C08.qseq': 'C07.seq'}), db)
+    from . import fixedorders
+    run.group(fixedorders.fixed_order_rules, run, db, 'C07.seq', None, lambda q: '_der_seq' not in q)
     run.rule('C07.forbes', "Forbes' auxiliary coefficients (Qbfs f/g/h; Q2d A/B/C, gamma, F, G, f, g) equal the published formulas, case by case")
     run.group(forbes_rules, run, db)
     run.require_instances('C07.forbes', 23)
